@@ -24,13 +24,20 @@
     none appears from nowhere;
   * (`C05.run_vehicle`) — a vehicle's balance moves by exactly the fares of its pickup events
     minus its charging payments: a fare is credited once, to the vehicle of the pickup event.
-  What remains on implementation traces only (Lean ledger automaton `Hive.Ledger`, monitor
-  `violResolved`): that a picked-up request is dropped off exactly once by the same vehicle
-  (stated per update by `dropoff_once_then_idle`).
+  * `run_dropoff_by_picker`, `run_dropoff_once` — (runs with one instruction per vehicle in every
+    instruction phase, `Board.Reachable1`, from a state in which nobody is in a trip) every drop-off
+    event is preceded by a pickup event of the SAME vehicle for the same request, and no request is
+    dropped off twice; `run_on_board` — a vehicle in `ServicingTrip` has a pickup event for its
+    request and, while there is road ahead, no drop-off event for it (`Proofs.Board`: a third walk,
+    `defaultUpdate_trip`, summarising every update of a vehicle by what it files and who is on board).
+  Not a theorem: that a drop-off *eventually* happens (liveness; "unless that vehicle runs out of
+  energy or the run ends first") and "at its destination" beyond the guard of `drop_off_trip`
+  (`dropOffTrip` refuses elsewhere: `dropoff_reports`).
 -/
 import Proofs.C17
 import Proofs.Stack
 import Proofs.Reqs
+import Proofs.Board
 
 namespace Hive
 namespace C03
@@ -149,6 +156,32 @@ theorem run_none_vanishes (h0 : w0.log = []) (h : WReachable env w0 w) (r : Requ
 
 end Run
 
+
+/-! ### the passengers, over whole runs -/
+
+section Passengers
+variable {env : Env} {w0 w : World}
+
+/-- **dropped off by the vehicle that picked up** -/
+theorem run_dropoff_by_picker (hf : ∀ c, env.inFence c = true) (hwf : w0.sim.WF) (h0 : w0.log = [])
+    (hnone : ∀ veh ∈ w0.sim.vehicles, Board.tripOf veh.act = none) (h : Board.Reachable1 env w0 w) :
+    ∀ p ∈ Board.dropped w.log, p ∈ Board.picked w.log :=
+  (Board.run_board hf hwf h0 hnone h).board.sub
+
+/-- **dropped off at most once** -/
+theorem run_dropoff_once (hf : ∀ c, env.inFence c = true) (hwf : w0.sim.WF) (h0 : w0.log = [])
+    (hnone : ∀ veh ∈ w0.sim.vehicles, Board.tripOf veh.act = none) (h : Board.Reachable1 env w0 w) :
+    ((Board.dropped w.log).map Prod.snd).Nodup :=
+  Board.dropped_requests_nodup (Board.run_board hf hwf h0 hnone h)
+
+/-- a vehicle in a trip has picked its request up, and with road ahead has not dropped it off yet -/
+theorem run_on_board (hf : ∀ c, env.inFence c = true) (hwf : w0.sim.WF) (h0 : w0.log = [])
+    (hnone : ∀ veh ∈ w0.sim.vehicles, Board.tripOf veh.act = none) (h : Board.Reachable1 env w0 w)
+    {veh : Vehicle} (hm : veh ∈ w.sim.vehicles) {r : RequestId} (hr : Board.tripOf veh.act = some r) :
+    (veh.id, r) ∈ Board.picked w.log ∧ (Board.onBoard veh.act = some r → (veh.id, r) ∉ Board.dropped w.log) :=
+  (Board.run_board hf hwf h0 hnone h).board.trip veh hm r hr
+
+end Passengers
 
 end C03
 end Hive
